@@ -19,11 +19,15 @@ def call_atom(ex, state, f, args, kwargs, node=None):
             sv = getattr(f, "self_val", None)
             if name in ex.reg.externals:
                 ex.notes["externals"].add(name)
-                return ex.reg.externals[name](ex, state, args, kwargs, sv)
+                return _ext_call(ex, state, ex.reg.externals[name], args, kwargs, sv)
             if name in models.BUILTINS:
                 return models.BUILTINS[name](ex, state, args, kwargs, sv)
             if name.split(".")[0] in ("log",) or name.startswith("self.log"):
                 return VNone
+            kind = name.split(".")[0]
+            real = {"bytes": bytes, "str": str, "int": int, "tuple": tuple, "list": list, "dict": dict}.get(kind)
+            if sv is not None and real is not None and "." in name and not hasattr(real, name.split(".", 1)[1]):
+                ex.raise_if(state, z3.BoolVal(True), "AttributeError")      # the real type has no such method
             return unknown_call(ex, state, name, args, kwargs, sv)
         if f.fkind == "native":
             sym, _ = ex.reg.native_specs[f.name]
@@ -40,7 +44,7 @@ def call_atom(ex, state, f, args, kwargs, node=None):
                 return call_repo(ex, state, fv, args, kwargs)
             if name in ex.reg.externals:
                 ex.notes["externals"].add(name)
-                return ex.reg.externals[name](ex, state, args, kwargs, f.self_val)
+                return _ext_call(ex, state, ex.reg.externals[name], args, kwargs, f.self_val)
             return unknown_call(ex, state, "virtual:" + str(name), args, kwargs, f.self_val)
         if f.fkind == "logmethod":
             return VNone
@@ -68,10 +72,23 @@ def call_atom(ex, state, f, args, kwargs, node=None):
     raise Unsupported("call of %r" % (f,))
 
 
+def _ext_call(ex, state, fn, args, kwargs, sv):
+    """assumed-contract model of an external: unions of argument kinds are split; a kind the model does not accept
+    is a TypeError of the real function (harmless when that alternative is infeasible)"""
+    def one(*atoms):
+        try:
+            return fn(ex, state, list(atoms), kwargs, sv)
+        except (AttributeError, z3.Z3Exception):
+            ex.raise_if(state, z3.BoolVal(True), "TypeError")
+    if any(isinstance(a, VUnion) for a in args):
+        return ex.dist(state, list(args), one)
+    return fn(ex, state, args, kwargs, sv)
+
+
 def _native(ex, state, sym, args, kwargs):
     try:
         return sym(ex, state, *args, **kwargs)
-    except AttributeError:
+    except (AttributeError, z3.Z3Exception):
         # a spec function applied to an alternative of the wrong kind (e.g. None under an `is not None` guard)
         raise _Abort()
 
@@ -417,7 +434,10 @@ def havoc_object(ex, state, ref):
         if not isinstance(a, VRef):
             continue
         o = state.heap[a.oid]
-        if o.kind == "list":
+        if o.kind == "list" and o.items is not None and 0 < len(o.items) <= 4:
+            # small fixed-size cell (e.g. `transport_candidate = [0]`): the length is kept, the items are havocked
+            o.items = [fresh_like(ex, state, it, "hv_item") for it in o.items]
+        elif o.kind == "list":
             el = o.elem or (elem_of_value(o.items[0])[0] if o.items else "int")
             o.items = None
             o.elem = el
@@ -456,6 +476,8 @@ def fresh_like(ex, state, v, name):
         return VPtr(v.base, z3.Int(fresh_name(name + "_off")))
     if isinstance(v, VABytes):
         return VABytes(z3.Array(fresh_name(name), z3.IntSort(), z3.IntSort()), v.n)
+    if isinstance(v, VSym):
+        return VSym(v.shape, z3.Int(fresh_name(name)))
     if isinstance(v, VTuple):
         return VTuple([fresh_like(ex, state, x, "%s_%d" % (name, k)) for k, x in enumerate(v.items)])
     if isinstance(v, VRef):
